@@ -157,7 +157,7 @@ func (p *p2cPicker) buildDoneFunc(c *subConn) func(balancer.DoneInfo) {
 			success = 0
 		}
 		oSuccess := atomic.LoadUint64(&c.success)
-		atomic.StoreUint64(&c.success, uint64(float64(oSuccess)*w+float64(success)*(1-2)))
+		atomic.StoreUint64(&c.success, uint64(float64(oSuccess)*w+float64(success)*(1-w)))
 
 		stamp := p.stamp.Load()
 		if now-stamp >= logInterval {
